@@ -58,10 +58,11 @@ ClassifyUdp(seg, ctx) ==
             ELSE Cls(id, "any", "C16", "rpc-unspecified")
       [] id = "RPC_TCP" -> Cls(id, "any", "C16", "rpc-record-marked-datagram")
       [] id = "none" ->
+            LET w == QListC(seg) IN
             IF DnsIsResponse(seg) THEN Cls("DNS", "mustnot", "C12", "dns-response")
-            ELSE IF DnsTruncated(seg) THEN Cls("DNS", "mustnot", "C14", "dns-truncated")
-            ELSE IF DnsHasOtherQuestion(seg) THEN Cls("DNS", "mustnot", "C14", "dns-question-not-in-a")
-            ELSE IF DnsCleanQuery(seg) /\ ctx.ver = 4 THEN Cls("DNS", "must", "C14", "dns-in-a-query")
+            ELSE IF DnsTruncatedW(seg, w) THEN Cls("DNS", "mustnot", "C14", "dns-truncated")
+            ELSE IF DnsHasOtherQuestionW(seg, w) THEN Cls("DNS", "mustnot", "C14", "dns-question-not-in-a")
+            ELSE IF DnsCleanQueryW(seg, w) /\ ctx.ver = 4 THEN Cls("DNS", "must", "C14", "dns-in-a-query")
             ELSE Cls("DNS", "any", "C14", "dns-unspecified")
       [] OTHER -> ClassifyDatagramLike(id, seg, ctx)
 
@@ -79,6 +80,18 @@ SplitWhole(before, seg) ==
 
 AppMsg(transport, before, seg) == IF transport = "tcp" /\ SplitWhole(before, seg) THEN before \o seg ELSE seg
 
+(* Later requests on a flow (C13 speaks of every complete request, C11 only of the first): *)
+(* s starts at a request boundary and lb of its bytes arrived before this segment.  TRUE iff *)
+(* s is tiled by strictly complete requests (no body, no stray bytes in between) up to one   *)
+(* that this segment completes.                                                              *)
+RECURSIVE HttpLaterRequest(_, _, _)
+HttpLaterRequest(s, lb, depth) ==
+    IF depth = 0 \/ Len(s) = 0 \/ RefId(s, FALSE) # "HTTP" THEN FALSE
+    ELSE LET e == HttpStrict(s, RefPos(s, FALSE) - 2).at IN
+         IF e = 0 THEN FALSE
+         ELSE IF e > lb THEN TRUE
+         ELSE HttpLaterRequest(SubSeq(s, e + 1, Len(s)), lb - e, depth - 1)
+
 ClassifyTcp(before, seg, ctx) ==
     LET s  == before \o seg
         id == RefId(s, FALSE)
@@ -93,6 +106,8 @@ ClassifyTcp(before, seg, ctx) ==
             IN
             IF strict.at > lb THEN Cls(id, "must", IF lb = 0 THEN "C13" ELSE "C11", "http-request-completed-by-this-segment")
             ELSE IF loose.at = 0 THEN Cls(id, "mustnot", IF lb = 0 THEN "C13" ELSE "C11", "http-malformed-or-unterminated")
+            ELSE IF strict.at > 0 /\ HttpLaterRequest(SubSeq(s, strict.at + 1, Len(s)), lb - strict.at, 8)
+                 THEN Cls(id, "must", "C13", "http-later-request-completed-by-this-segment")
             ELSE Cls(id, "any", "C13", "http-unspecified-or-already-complete")
       [] id = "RPC_TCP" ->
             IF Len(s) < 44 THEN Cls(id, "mustnot", IF lb = 0 THEN "C16" ELSE "C11", "rpc-call-header-incomplete")
@@ -252,9 +267,9 @@ DnsAnswersCanon(r, o, k) ==      \* k answers from offset o: owner name, type, c
 
 DnsCanon(r) ==
     IF Len(r) < 12 THEN r
-    ELSE LET w == Questions(r, 12, IF DnsQd(r) <= 64 THEN DnsQd(r) ELSE 0, << >>) IN
+    ELSE LET w == Questions(r, 12, IF DnsQd(r) <= QCap THEN DnsQd(r) ELSE 0, << >>) IN
          IF w.st # "ok" THEN r
-         ELSE SubSeq(r, 1, w.end) \o DnsAnswersCanon(r, w.end, IF DnsAn(r) <= 64 THEN DnsAn(r) ELSE 0)
+         ELSE SubSeq(r, 1, w.end) \o DnsAnswersCanon(r, w.end, IF DnsAn(r) <= QCap THEN DnsAn(r) ELSE 0)
 
 ZeroAt(r, o, n) == [ i \in 1..Len(r) |-> IF i > o /\ i <= o + n THEN 0 ELSE r[i] ]
 
@@ -280,6 +295,7 @@ AppCanon(transport, r) ==
 MustWhys == { "ssh-identification", "gh0st", "stun-binding-request", "smb1-negotiate", "smb1-session-setup",
               "smb2-negotiate", "smb2-session-setup", "http-complete-request", "rpc-call", "dns-in-a-query",
               "http-request-completed-by-this-segment", "rpc-call-completed-by-this-segment",
+              "http-later-request-completed-by-this-segment",
               "request-completing-signature" }
 UnansweredTags == { "unanswered:" \o y : y \in MustWhys }
 
